@@ -34,7 +34,12 @@ from hypothesis import strategies as st
 
 import aurel.reading as rd
 from harness import etgen
-from harness.common import HarnessError, PropertyFailure, Sub, scratch_dir
+from harness.common import PropertyFailure, Sub, scratch_dir
+from harness.etcases import (K, build_spec, check_result, cut_axes,
+                             expected_keys, layout_kind, nclass, permute,
+                             quiet, resolve, resolve_request, sim_case,
+                             sizes_for, source_restart, subblock_ok,
+                             supported_dec, tree_dec)
 
 PROPERTY = "C11"
 RULE = ("Hypothesis draws a simulation description (interior size 3-12 per "
@@ -52,6 +57,8 @@ RULE = ("Hypothesis draws a simulation description (interior size 3-12 per "
         "read_ET_variables / join_chunks must be np.array_equal to the "
         "ground truth. Non-trivial = the level read has >= 2 chunks along "
         ">= 1 axis and a non-cubic interior size.")
+# a run that exceeds this ends as "explored less" (never a violation)
+BUDGET_S = {"quick": 85, "thorough": 1150}
 ASSUMPTIONS = [
     "file format modelled on the repository fixtures (dataset key, (z,y,x) "
     "axis order, cctk_nghostzones / iorigin / time attributes, iorigin in "
@@ -78,218 +85,8 @@ ASSUMPTIONS = [
 # helpers
 
 
-def quiet(fn, *a, **k):
-    with contextlib.redirect_stdout(io.StringIO()):
-        return fn(*a, **k)
-
-
-def pick(n, ks):
-    """ks (drawn ints) -> sorted distinct cut positions in 1..n-1."""
-    remaining = list(range(1, n))
-    cuts = []
-    for k in ks:
-        if not remaining:
-            break
-        cuts.append(remaining.pop(k % len(remaining)))
-    return sorted(cuts)
-
-
-def resolve(n, dec):
-    """decomposition descriptor -> list of boxes for interior size n."""
-    kind = dec["kind"]
-    if kind == "rect":
-        return etgen.rect_boxes(n, [pick(n[a], dec["k"][a]) for a in range(3)])
-    if kind == "nested":
-        zc = pick(n[2], dec["z"])
-        nsl = len(zc) + 1
-        yc = [pick(n[1], dec["y"][i % len(dec["y"])]) for i in range(nsl)]
-        xc = []
-        for i in range(nsl):
-            rows = dec["x"][i % len(dec["x"])]
-            xc.append([pick(n[0], rows[j % len(rows)])
-                       for j in range(len(yc[i]) + 1)])
-        return etgen.nested_boxes(n, zc, yc, xc)
-    if kind == "tree":
-        def rec(box, t):
-            if t is None:
-                return [box]
-            ax, k, lo, hi = t
-            a, b = box[ax]
-            if b - a < 2:
-                return [box]
-            pos = a + 1 + k % (b - a - 1)
-            b1 = [list(s) for s in box]
-            b2 = [list(s) for s in box]
-            b1[ax] = [a, pos]
-            b2[ax] = [pos, b]
-            return rec(b1, lo) + rec(b2, hi)
-        return rec([[0, n[0]], [0, n[1]], [0, n[2]]], dec["t"])
-    raise HarnessError(f"unknown decomposition {kind}")
-
-
-def permute(boxes, seed):
-    if not seed or len(boxes) < 2:
-        return boxes
-    p = np.random.RandomState(seed).permutation(len(boxes))
-    return [boxes[i] for i in p]
-
-
-def nclass(k):
-    return ("1" if k == 1 else "2" if k == 2 else "3" if k == 3 else
-            "4-8" if k <= 8 else "9-27" if k <= 27 else ">27")
-
-
-def cut_axes(boxes):
-    ax = "".join("xyz"[a] for a in range(3)
-                 if len({tuple(b[a]) for b in boxes}) > 1)
-    return ax or "none"
-
-
-def layout_kind(n, boxes):
-    if not etgen.is_partition(n, boxes):
-        return "missing"
-    if etgen.is_rectilinear(boxes):
-        return "rect"
-    if etgen.is_nested_zyx(n, boxes):
-        return "nested"
-    return "general"
-
-
-def describe_mismatch(got, want):
-    """-> (kind, observed) for an array that should equal ``want``."""
-    got = np.asarray(got)
-    if got.shape != want.shape:
-        return "shape", dict(got=list(got.shape), want=list(want.shape))
-    if got.dtype != np.float64:
-        return "dtype", dict(got=str(got.dtype))
-    bad = np.argwhere(got != want)
-    i = tuple(int(v) for v in bad[0])
-    try:
-        dg, dw = etgen.decode(got[i]), etgen.decode(want[i])
-        fields = [f for f in ("var", "it", "rl", "restart") if dg[f] != dw[f]]
-    except Exception:  # noqa: BLE001
-        dg, dw, fields = float(got[i]), float(want[i]), ["garbage"]
-    what = "+".join(fields) if fields else "position"
-    return f"value:{what}", dict(index=list(i), nbad=int(len(bad)),
-                                 got=dg, want=dw)
-
-
-def subblock_ok(got, full):
-    """True iff ``got`` is a contiguous block of ``full`` at the place its
-    own values say (no misplacement inside an incomplete result)."""
-    got = np.asarray(got)
-    if got.ndim != 3 or got.size == 0:
-        return False
-    hit = np.argwhere(full == got[0, 0, 0])
-    if len(hit) != 1:
-        return False
-    o = hit[0]
-    sl = tuple(slice(int(o[a]), int(o[a]) + got.shape[a]) for a in range(3))
-    blk = full[sl]
-    return blk.shape == got.shape and np.array_equal(blk, got)
-
-
 # ---------------------------------------------------------------------------
 # strategies: decompositions
-
-K = st.integers(0, 63)
-
-
-def ks(m):
-    return st.lists(K, min_size=m, max_size=m)
-
-
-def seg_triples(lo, hi, maxseg=4):
-    out = []
-    for a in range(1, maxseg + 1):
-        for b in range(1, maxseg + 1):
-            for c in range(1, maxseg + 1):
-                if lo <= a * b * c <= hi:
-                    out.append((a, b, c))
-    return out
-
-
-CLASS_RANGES = {"1": (1, 1), "2": (2, 2), "3": (3, 3), "4-8": (4, 8),
-                "9-27": (9, 27), ">27": (28, 64)}
-
-
-@st.composite
-def rect_dec(draw, classes):
-    cl = draw(st.sampled_from(classes))
-    a, b, c = draw(st.sampled_from(seg_triples(*CLASS_RANGES[cl])))
-    return dict(kind="rect", k=[draw(ks(a - 1)), draw(ks(b - 1)),
-                                draw(ks(c - 1))], need=[a, b, c])
-
-
-# nested count structures: list (slabs) of list (rows) of boxes-per-row
-def _nested_structs(total_lo, total_hi, maxz=3, maxy=3, maxx=3):
-    rows_opts = []
-    for ny in range(1, maxy + 1):
-        def rec(prefix, left):
-            if left == 0:
-                rows_opts.append(list(prefix))
-                return
-            for nx in range(1, maxx + 1):
-                rec(prefix + [nx], left - 1)
-        rec([], ny)
-    out = []
-
-    def recz(prefix, left, tot):
-        if tot > total_hi:
-            return
-        if left == 0:
-            if total_lo <= tot:
-                out.append([list(r) for r in prefix])
-            return
-        for r in rows_opts:
-            recz(prefix + [r], left - 1, tot + sum(r))
-    for nz in range(1, maxz + 1):
-        recz([], nz, 0)
-    return out
-
-
-NESTED = {cl: _nested_structs(*CLASS_RANGES[cl])
-          for cl in ("2", "3", "4-8", "9-27")}
-
-
-@st.composite
-def nested_dec(draw, classes):
-    cl = draw(st.sampled_from([c for c in classes if c in NESTED]))
-    struct = draw(st.sampled_from(NESTED[cl]))
-    z = draw(ks(len(struct) - 1))
-    y = [draw(ks(len(rows) - 1)) for rows in struct]
-    x = [[draw(ks(nb - 1)) for nb in rows] for rows in struct]
-    need = [max(nb for rows in struct for nb in rows),
-            max(len(rows) for rows in struct), len(struct)]
-    return dict(kind="nested", z=z, y=y, x=x, need=need)
-
-
-def tree_strategy(depth):
-    leaf = st.none()
-    if depth == 0:
-        return leaf
-    sub = tree_strategy(depth - 1)
-    node = st.tuples(st.integers(0, 2), K, sub, sub).map(list)
-    return st.one_of(leaf, node, node)
-
-
-@st.composite
-def tree_dec(draw):
-    sub = tree_strategy(2)
-    t = [draw(st.integers(0, 2)), draw(K), draw(sub), draw(sub)]
-    return dict(kind="tree", t=t, need=[2, 2, 2])
-
-
-def supported_dec(classes):
-    nest_ok = [c for c in classes if c in NESTED]
-    if not nest_ok:
-        return rect_dec(classes)
-    return st.one_of(rect_dec(classes), nested_dec(classes))
-
-
-@st.composite
-def sizes_for(draw, need, nmax=12):
-    return [draw(st.integers(max(3, need[a]), nmax)) for a in range(3)]
 
 
 # ---------------------------------------------------------------------------
@@ -369,7 +166,7 @@ def test_join(case, note):
         elif kind == "missing" and subblock_ok(got, G):
             note.cls("unsupported:partial-but-placed")
         else:
-            note.fail(f"silent-misplacement:{kind}{branch}",
+            note.fail(f"silent-misplacement:{kind}",
                       dict(nchunks=len(boxes), got_shape=list(got.shape),
                            want=list(G.shape),
                            origins=[[int(v) for v in k] for k in cut],
@@ -401,217 +198,6 @@ fixij_case = st.fixed_dictionaries(dict(
 
 # ---------------------------------------------------------------------------
 # simulation directories
-
-GROUP_KEYS = list(etgen.GROUPS)
-SIMNAMES = ["etsim", "Sim_01", "x", "run2b", "BHB_lowres"]
-
-
-@st.composite
-def sim_case(draw, classes, ghost_lo=1, unsupported=False, nlev_max=3,
-             nmax=12, fixed_layout=True):
-    nlev = draw(st.sampled_from([1, 1, 2, 2, 3][:2 * nlev_max - 1]))
-    nres = draw(st.integers(1, 3))
-    restarts = []
-    need = [1, 1, 1]
-    for r in range(nres):
-        if unsupported:
-            mode = draw(st.sampled_from(["tree", "missing", "ctag", "file0",
-                                         "fewer"]))
-        else:
-            mode = "ok"
-        if mode in ("tree", "missing"):
-            dec = draw(tree_dec())
-        elif mode in ("ctag", "file0"):
-            dec = dict(kind="rect", k=[[], [], []], need=[1, 1, 1])
-        elif mode == "fewer":
-            dec = draw(rect_dec(["4-8"]))
-        else:
-            dec = draw(supported_dec(classes))
-        need = [max(need[a], dec["need"][a]) for a in range(3)]
-        length = draw(st.integers(0, 3))
-        rs = dict(dec=dec, perm=draw(st.sampled_from([0, 0]) if unsupported
-                                     else st.integers(0, 999)),
-                  len=length, overlap=draw(st.integers(0, 3)), mode=mode,
-                  missing=draw(K))
-        if fixed_layout:
-            rs["per_proc"] = draw(st.booleans())
-        restarts.append(rs)
-    if unsupported:
-        if any(r["mode"] in ("tree", "missing") for r in restarts):
-            nlev = 1
-        elif any(r["mode"] == "fewer" for r in restarts):
-            nlev = 2
-    n = [draw(sizes_for(need, nmax)) for _ in range(nlev)]
-    gmax = 4
-    ghost = [draw(st.integers(ghost_lo, gmax)) for _ in range(3)]
-    if ghost_lo == 0:
-        z = draw(st.integers(1, 7))          # which axes have ghost 0
-        ghost = [0 if (z >> a) & 1 else ghost[a] for a in range(3)]
-    groups = draw(st.lists(st.sampled_from(GROUP_KEYS), min_size=1,
-                           max_size=4, unique=True))
-    stride = draw(st.integers(1, 4))
-    subcycle = draw(st.booleans()) and nlev == 2
-    case = dict(sim=draw(st.sampled_from(SIMNAMES)), n=n, ghost=ghost,
-                groups=groups, restarts=restarts, stride=stride,
-                subcycle=subcycle, first=draw(st.integers(0, 3)),
-                origin1=draw(st.sampled_from([[0, 0, 0], [3, 3, 3],
-                                              [2, 0, 5]])))
-    if fixed_layout:
-        case["grouped"] = draw(st.booleans())
-    # the request
-    tens, comps = [], []
-    for g in groups:
-        t, c = etgen.request_names(g)
-        tens += t
-        comps += c
-    pool = tens + tens + comps
-    vars_ = draw(st.one_of(
-        st.just([]),
-        st.lists(st.sampled_from(pool), min_size=1, max_size=4, unique=True),
-        st.lists(st.sampled_from(pool), min_size=1, max_size=4, unique=True)))
-    case["req"] = dict(
-        vars=vars_, rl=draw(st.integers(0, nlev - 1)),
-        restart=draw(st.sampled_from([-1, -1] + list(range(nres)))),
-        itsel=draw(st.lists(st.integers(0, 63), min_size=1, max_size=6)),
-        extra=draw(st.sampled_from([[], [], [1000], [999, 1001]])),
-        )
-    return case
-
-
-def build_spec(case, per_proc=None, grouped=None):
-    """drawn parameters -> etgen spec (pure)."""
-    nlev = len(case["n"])
-    levels = [dict(n=list(case["n"][rl]), ghost=list(case["ghost"]),
-                   origin=[0, 0, 0] if rl == 0 else
-                   [v * rl for v in case["origin1"]]) for rl in range(nlev)]
-    s0 = case["stride"]
-    if case["subcycle"]:
-        strides = [s0 * 2 ** (nlev - 1 - rl) for rl in range(nlev)]
-    else:
-        strides = [s0] * nlev
-    S = strides[0]
-    rss = []
-    a = case["first"]
-    for r, rc in enumerate(case["restarts"]):
-        b = a + rc["len"]
-        its = [[i for i in range(a * S, b * S + 1) if i % strides[rl] == 0]
-               for rl in range(nlev)]
-        boxes = []
-        for rl in range(nlev):
-            bx = resolve(levels[rl]["n"], rc["dec"])
-            if rc["mode"] == "missing" and len(bx) > 1:
-                bx.pop(rc["missing"] % len(bx))
-            if rc["mode"] == "fewer" and rl == nlev - 1 and nlev > 1:
-                # finest level not split: one component, only in file_0
-                bx = resolve(levels[rl]["n"],
-                             dict(kind="rect", k=[[], [], []]))
-            boxes.append(permute(bx, rc["perm"]))
-        ncomp = max(len(bx) for bx in boxes)
-        pp = rc.get("per_proc") if per_proc is None else per_proc
-        if rc["mode"] == "file0":
-            pp = True
-        elif rc["mode"] == "fewer":
-            pp = True
-        elif ncomp == 1:
-            pp = False       # Carpet: no .file_ suffix with one process
-        rss.append(dict(r=r, its=its, per_proc=bool(pp), boxes=boxes,
-                        ctag="always" if rc["mode"] == "ctag" else "auto",
-                        par=(r == 0 or rc["perm"] % 2 == 0),
-                        checkpoints=[], xyz=""))
-        # next restart starts `overlap` coarse steps before this one's end
-        a = max(0, b + 1 - min(rc["overlap"], rc["len"] + 1))
-    return dict(sim=case["sim"],
-                grouped=bool(case.get("grouped") if grouped is None
-                             else grouped),
-                groups=list(case["groups"]), levels=levels, t0=1.0,
-                dt=0.03125, restarts=rss)
-
-
-def resolve_request(case, spec):
-    """-> kwargs for read_data and the expected iteration list."""
-    rq = case["req"]
-    rl, restart = rq["rl"], rq["restart"]
-    if restart >= 0:
-        pool = etgen.its_of(spec, restart, rl)
-        lo, hi = etgen.restart_range(spec, restart)
-        ranges = [(lo, hi)]
-    else:
-        pool = sorted({i for rs in spec["restarts"] for i in rs["its"][rl]})
-        ranges = [etgen.restart_range(spec, rs["r"])
-                  for rs in spec["restarts"]]
-    chosen = [pool[k % len(pool)] for k in rq["itsel"]]
-    its = chosen + list(rq["extra"])
-    # unsorted with duplicates, as drawn
-    expected = sorted({i for i in its
-                       if any(lo <= i <= hi for lo, hi in ranges)})
-    return dict(it=its, vars=list(rq["vars"]), rl=rl, restart=restart), expected
-
-
-def source_restart(spec, it, rl, restart):
-    return restart if restart >= 0 else etgen.latest_restart(spec, it, rl)
-
-
-def expected_keys(spec, vars_):
-    if vars_:
-        return etgen.expand_request(vars_)
-    return [(etgen.aurel_name(v), v) for v in etgen.variables(spec)]
-
-
-def check_result(out, spec, kw, expected_its, tag, fail, strict_keys=True):
-    """Compare one read_data / read_ET_variables result with ground truth.
-    ``fail(disc, observed)``; returns number of arrays compared."""
-    rl, restart = kw["rl"], kw["restart"]
-    if not isinstance(out, dict) or "it" not in out or "t" not in out:
-        fail(f"{tag}result-structure", dict(type=str(type(out))))
-        return 0
-    got_it = [int(i) for i in out["it"]]
-    if got_it != expected_its:
-        fail(f"{tag}it-order", dict(got=got_it, want=expected_its,
-                                    requested=kw["it"]))
-        return 0
-    want_t = [etgen.time_of(spec, i) for i in expected_its]
-    got_t = [None if v is None else float(v) for v in out["t"]]
-    if got_t != want_t:
-        fail(f"{tag}t", dict(got=got_t, want=want_t, its=expected_its))
-    a2e = {etgen.aurel_name(v): v for v in etgen.ALLVARS}
-    present = set(etgen.variables(spec))
-    ncmp = 0
-    todo = list(expected_keys(spec, kw["vars"]))
-    seen = {k for k, _ in todo}
-    for k in out:
-        if k in ("it", "t") or k in seen:
-            continue
-        if k in a2e and a2e[k] in present:
-            todo.append((k, a2e[k]))      # extra group members: also checked
-        else:
-            fail(f"{tag}keys:unknown", dict(key=k))
-    for akey, et in todo:
-        if akey not in out:
-            if strict_keys:
-                fail(f"{tag}keys:missing", dict(key=akey, et=et,
-                                                got=sorted(out.keys())))
-            continue
-        col = out[akey]
-        if len(col) != len(expected_its):
-            fail(f"{tag}length", dict(key=akey, got=len(col),
-                                      want=len(expected_its)))
-            continue
-        for i, it in enumerate(expected_its):
-            src = source_restart(spec, it, rl, restart)
-            want = etgen.truth(spec, et, it, rl, src)
-            g = col[i]
-            if g is None:
-                fail(f"{tag}none", dict(key=akey, it=it))
-                continue
-            ncmp += 1
-            if np.shape(g) == want.shape and np.array_equal(g, want) \
-                    and np.asarray(g).dtype == np.float64:
-                continue
-            kind, obs = describe_mismatch(g, want)
-            obs.update(key=akey, it=it, rl=rl, source_restart=src)
-            fail(f"{tag}{kind}", obs)
-            break
-    return ncmp
 
 
 def level_classes(spec, r, rl, note):
@@ -661,7 +247,10 @@ def run_read(case, note, spec=None, tagprefix=""):
         param = etgen.param_for(root, spec["sim"])
         sfx = branch_suffix(spec, used, rl)
 
+        main_failed = []
+
         def fail(disc, obs):
+            main_failed.append(disc)
             obs = dict(obs)
             obs["chunks"] = {str(r): len(spec["restarts"][
                 etgen.restart_index(spec, r)]["boxes"][rl]) for r in used}
@@ -688,7 +277,9 @@ def run_read(case, note, spec=None, tagprefix=""):
         note.nt(level_classes(spec, r, rl, note) or nt)
 
         def fail2(disc, obs):
-            note.fail(tagprefix + "ETvars:" + disc + sfx2, dict(obs))
+            # the same root cause is not reported twice on one case
+            if not main_failed:
+                note.fail(tagprefix + "ETvars:" + disc + sfx2, dict(obs))
         try:
             vf = quiet(rd.get_content, param, restart=r, verbose=False)
             out2 = quiet(rd.read_ET_variables, param, list(vars_r), vf,
@@ -731,7 +322,11 @@ def test_layouts4(case, note):
                    for i in expected_its})
     nt = False
     for r in used:
-        nt = level_classes(spec0, r, rl, note) or nt
+        rs = spec0["restarts"][etgen.restart_index(spec0, r)]
+        note.cls(f"chunks={nclass(len(rs['boxes'][rl]))}",
+                 f"axes={cut_axes(rs['boxes'][rl])}")
+        nt = (len(rs["boxes"][rl]) >= 2
+              and len(set(spec0["levels"][rl]["n"])) > 1) or nt
     note.nt(nt)
     for pp, gr in LAYOUTS:
         spec = build_spec(case, per_proc=pp, grouped=gr)
@@ -793,8 +388,6 @@ def test_unsupported(case, note):
             if mode in ("tree", "missing") and kind in ("rect", "nested"):
                 note.cls("obs:tree-is-supported-layout(skipped)")
                 continue    # subject of read / read_small
-            branch = (f"@{len(boxes)}chunks" if len(boxes) in (2, 3)
-                      else "")
             its_r = etgen.its_of(spec, r, rl)[:2]
             vars_r = kw["vars"] or [etgen.aurel_name(v) for v in
                                     etgen.variables(spec)][:2]
@@ -828,7 +421,7 @@ def test_unsupported(case, note):
             if placed:
                 note.cls(f"obs:{mode}:partial-but-placed")
             else:
-                note.fail(f"silent-misplacement:{mode}{branch}",
+                note.fail(f"silent-misplacement:{mode}",
                           dict(kind=kind, first=bad[0][0], detail=bad[0][1],
                                boxes=boxes, n=n))
     finally:
@@ -862,7 +455,7 @@ GENERIC_READ = [
              _rs(dict(kind="rect", k=[[], [], []], need=[1, 1, 1]), perm=0,
                  len=1, overlap=2)],
          stride=2, subcycle=True, first=1, origin1=[3, 3, 3], grouped=True,
-         req=dict(vars=["betaup3", "velx", "alpha", "foo"], rl=1, restart=-1,
+         req=dict(varsel=[0, 5, 8, 9], rl=1, restart=-1,
                   itsel=[9, 2, 5, 2, 11, 0], extra=[1000])),
     # one file + ungrouped, rl=0, fixed restart, all variables
     dict(sim="etsim", n=[[5, 8, 6]], ghost=[1, 3, 2],
@@ -873,7 +466,7 @@ GENERIC_READ = [
              _rs(dict(kind="rect", k=[[0], [1], [2], ], need=[2, 2, 2]),
                  per_proc=True, perm=5, overlap=3)],
          stride=3, subcycle=False, first=0, origin1=[0, 0, 0], grouped=False,
-         req=dict(vars=[], rl=0, restart=0, itsel=[2, 0, 1], extra=[])),
+         req=dict(varsel=[], rl=0, restart=0, itsel=[2, 0, 1], extra=[])),
 ]
 
 GENERIC_SMALL = [
@@ -883,7 +476,7 @@ GENERIC_SMALL = [
                                             for a in range(3)],
                             need=[1, 1, 1]), perm=pm, per_proc=pp, len=0)],
          stride=1, subcycle=False, first=0, origin1=[0, 0, 0], grouped=False,
-         req=dict(vars=["alpha"], rl=0, restart=-1, itsel=[0], extra=[]))
+         req=dict(varsel=[0], rl=0, restart=-1, itsel=[0], extra=[]))
     for ax, k, pm, pp in [(0, 2, 0, False), (0, 1, 0, True), (1, 1, 0, False),
                           (1, 2, 0, False), (2, 1, 0, False), (2, 0, 2, True)]
 ] + [
@@ -893,7 +486,7 @@ GENERIC_SMALL = [
                                             for a in range(3)],
                             need=[1, 1, 1]), perm=0, per_proc=False, len=0)],
          stride=1, subcycle=False, first=0, origin1=[0, 0, 0], grouped=False,
-         req=dict(vars=["alpha"], rl=0, restart=-1, itsel=[0], extra=[]))
+         req=dict(varsel=[0], rl=0, restart=-1, itsel=[0], extra=[]))
     for ax in range(3)
 ] + [
     dict(sim="etsim", n=[[6, 6, 4]], ghost=[1, 1, 1],
@@ -901,8 +494,47 @@ GENERIC_SMALL = [
          restarts=[_rs(dict(kind="nested", z=[1], y=ys, x=[[[]], [[]]],
                             need=[1, 2, 2]), perm=0, per_proc=False, len=0)],
          stride=1, subcycle=False, first=0, origin1=[0, 0, 0], grouped=False,
-         req=dict(vars=["alpha"], rl=0, restart=-1, itsel=[0], extra=[]))
+         req=dict(varsel=[0], rl=0, restart=-1, itsel=[0], extra=[]))
     for ys in ([[2], []], [[], [2]])
+]
+
+GENERIC_GHOST0 = [
+    dict(sim="etsim", n=[[5, 4, 3]], ghost=[0, 0, 0],
+         groups=["admbase-lapse"],
+         restarts=[_rs(dict(kind="rect", k=[[], [], []], need=[1, 1, 1]),
+                       perm=0, per_proc=False, len=0)],
+         stride=1, subcycle=False, first=0, origin1=[0, 0, 0], grouped=False,
+         req=dict(varsel=[0], rl=0, restart=-1, itsel=[0], extra=[])),
+    dict(sim="etsim", n=[[6, 5, 4]], ghost=[2, 0, 1],
+         groups=["admbase-shift"],
+         restarts=[_rs(dict(kind="rect", k=[[1], [2], [0]], need=[2, 2, 2]),
+                       perm=3, per_proc=True, len=1)],
+         stride=2, subcycle=False, first=0, origin1=[0, 0, 0], grouped=True,
+         req=dict(varsel=[0], rl=0, restart=-1, itsel=[1, 0],
+                  extra=[])),
+]
+
+# three slabs along z with the middle one missing (a hole)
+GENERIC_UNSUPPORTED = [
+    dict(sim="etsim", n=[[4, 3, 5]], ghost=[1, 2, 1],
+         groups=["admbase-lapse"],
+         restarts=[dict(dec=dict(kind="tree",
+                                 t=[2, 0, None, [2, 1, None, None]],
+                                 need=[2, 2, 2]),
+                        perm=0, len=1, overlap=0, mode="missing", missing=1,
+                        per_proc=pp)],
+         stride=1, subcycle=False, first=0, origin1=[0, 0, 0], grouped=False,
+         req=dict(varsel=[0], rl=0, restart=-1, itsel=[0], extra=[]))
+    for pp in (False, True)
+]
+GENERIC_JOIN_UNSUPPORTED = [
+    dict(n=[4, 3, 5], dec=dict(kind="tree",
+                               t=[2, 0, None, [2, 1, None, None]]),
+         missing=1, order=0, origin=[0, 0, 0]),
+    dict(n=[6, 6, 6], dec=dict(kind="tree",
+                               t=[0, 2, [2, 1, None, None],
+                                  [2, 3, None, None]]),
+         missing=None, order=3, origin=[3, 3, 3]),
 ]
 
 GENERIC_JOIN = [
@@ -987,21 +619,25 @@ def subchecks(tier):
         Sub("join", join_case(big, nmax=nmax if q else 16), test_join,
             600 if q else 12000, generic=GENERIC_JOIN, shards=4 if q else 8),
         Sub("join_small", join_case(["2", "3"]), test_join,
-            300 if q else 4000, generic=GENERIC_JOIN_SMALL, shards=2,
+            300 if q else 4000, generic=GENERIC_JOIN_SMALL, shards=1,
             max_rounds=8),
         Sub("join_unsupported", join_case(None, unsupported=True), test_join,
-            400 if q else 8000, shards=2),
+            400 if q else 8000, generic=GENERIC_JOIN_UNSUPPORTED, shards=2),
         Sub("fixij", fixij_case, test_fixij, 100 if q else 1000),
-        Sub("read", sim_case(big), test_read, 200 if q else 10000,
+        Sub("read", sim_case(big), test_read, 128 if q else 10000,
             generic=GENERIC_READ, shards=8 if q else 16, shrink_quick=True),
+        # shards=1 in quick: the fixed cases then exclude every known
+        # discriminator before the random search starts
         Sub("read_small", sim_case(["2", "3"], nlev_max=2), test_read,
-            64 if q else 2000, generic=GENERIC_SMALL, shards=8 if q else 16,
-            max_rounds=8),
+            30 if q else 2000, generic=GENERIC_SMALL, shards=1 if q else 16,
+            max_rounds=8, shrink_quick=False),
         Sub("ghost0", sim_case(["1", "4-8"], ghost_lo=0, nlev_max=2),
-            test_ghost0, 24 if q else 600, shards=4 if q else 8),
+            test_ghost0, 24 if q else 600, generic=GENERIC_GHOST0,
+            shards=2 if q else 8, shrink_quick=False),
         Sub("layouts4", sim_case(["4-8", "9-27"], nlev_max=2,
                                  fixed_layout=False), test_layouts4,
-            40 if q else 2500, shards=8 if q else 16),
+            24 if q else 2500, shards=8 if q else 16),
         Sub("unsupported", sim_case(["1"], unsupported=True, nlev_max=2),
-            test_unsupported, 48 if q else 1500, shards=8 if q else 16),
+            test_unsupported, 48 if q else 1500, generic=GENERIC_UNSUPPORTED,
+            shards=8 if q else 16),
     ]
